@@ -3,6 +3,7 @@
 -/
 import PsVerif.Model.Gram
 import PsVerif.Model.NormCalc
+import PsVerif.Model.Sspor
 namespace PsVerif.Proto
 
 abbrev P := StateT (List String) Option
@@ -82,6 +83,44 @@ def gqrCfg : P GqrCfg := do
   let A ← listOf nat
   let ns ← optNat
   pure { opt := o, L := L, s := s, A := A, nSensors := ns }
+
+def pyCount : P PyCount := do
+  let t ← tok
+  if t == "x" then pure .other else
+  match t.splitOn ":" with
+  | ["i", v] => match v.toInt? with
+    | some n => pure (.int n)
+    | none => failure
+  | _ => failure
+
+def optPyCount : P (Option PyCount) := do
+  match (← get) with
+  | "None" :: ts => set ts; pure none
+  | _ => do let c ← pyCount; pure (some c)
+
+def basisKind : P BasisKind := do
+  let t ← tok
+  if t == "identity" then pure .identity
+  else if t == "svd" then pure .svd
+  else if t == "rp" then pure .rp
+  else failure
+
+def ssporOp : P SsporOp := do
+  let t ← tok
+  if t == "fit" then do
+    let ne ← nat; let nf ← nat; let pf ← bool; let o ← listOf nat
+    pure (.fit ne nf pf o)
+  else if t == "set" then do
+    let v ← pyCount
+    pure (.setN v)
+  else if t == "upd" then do
+    let v ← pyCount; let hx ← bool; let ne ← nat; let nf ← nat; let o ← listOf nat
+    pure (.updateModes v (if hx then some (ne, nf) else none) o)
+  else failure
+
+def showOptNat : Option Nat → String
+  | none => "None"
+  | some n => toString n
 
 def showRat (r : Rat) : String :=
   if r.den = 1 then toString r.num else s!"{r.num}/{r.den}"
